@@ -640,7 +640,9 @@ def check(ctx):
     o6 = Ob('C14.6', 'K2', 'the registered assets are initialised in registration (construction) order -- the order in which they draw their first tie-break weights -- '
                            'not in an order derived from names, ids or hashes')
     init_order(ctx, o6)
-    return [o1, o2, o3, o4, o5, o6]
+    o7 = ctx.shared('c07', 'C07.4', 'C14.7', 'running for a and then for b equals running once for a + b only if nothing is dropped at the boundary: pending events are cancelled '
+                    'only by an asset, for its own id (a clean-up of the shared id -1 at the end of run() loses plant-level events of the second half)')
+    return [o1, o2, o3, o4, o5, o6, o7]
 
 
 CLAIM = {
